@@ -1824,6 +1824,11 @@ class Interp:
             return obj[lo:hi]
         if isinstance(obj, SStr) and obj.only_runs():
             return self.loops.rl_slice(self, obj, lo, hi)
+        if type(obj).__name__ == 'PartialSplit':
+            # the first pieces of a split text (the later ones are unknown): a slice that stays within the known pieces
+            if (lo is None or (isinstance(lo, int) and lo >= 0)) and isinstance(hi, int) and not isinstance(hi, bool) and 0 <= hi <= len(obj.known):
+                return list(obj.known[(lo or 0):hi])
+            raise Unsupported('a slice of a split text beyond the part that is known')
         from .seq import SSeq
         if isinstance(obj, XList):
             if lo is None and isinstance(hi, int) and hi < 0 and len(obj.items) >= -hi:
